@@ -1067,8 +1067,29 @@ def rule_B5(prog):
         eq_names = [f_.name for f_ in fl.get("eq", [])] or ["flush_eq"]
         di_names = [f_.name for f_ in fl.get("delins", [])] or ["flush_del_ins"]
         FLUSH_EQ, FLUSH_DI = eq_names[0], di_names[0]
-        table = {"equal": (FLUSH_DI, ["eq"]), "delete": (FLUSH_EQ, ["del", "ins"]),
-                 "insert": (FLUSH_EQ, ["del", "ins"]), "replace": (FLUSH_EQ, ["del", "ins"])}
+        # the three buffer fields, by what writes them (their names are private and may change): the field `equal` writes
+        # is the pending-equal buffer, the one `delete` writes the pending delete, the one `insert` writes the pending insert
+        def written(meth):
+            f_ = prog.fn(rep["methods"].get(meth, ""))
+            names = set()
+            if f_ is not None and f_.mir:
+                for b in f_.mir.blocks:
+                    for st in b["stmts"]:
+                        if st["k"] != "assign":
+                            continue
+                        for place in (st["p"], st["rv"].get("p") if st["rv"]["k"] == "ref" and st["rv"].get("mut") else None):
+                            if place and place["l"] == 1:
+                                fs = [e.get("name") for e in place["proj"] if isinstance(e, dict) and "field" in e and
+                                      "Option" in (e.get("ty") or "")]
+                                if fs:
+                                    names.add(fs[0])
+            return names
+        w_eq, w_del, w_ins = written("equal"), written("delete"), written("insert")
+        F_EQ = next(iter(w_eq)) if len(w_eq) == 1 else "eq"
+        F_DEL = next(iter(w_del - w_eq)) if len(w_del - w_eq) == 1 else "del"
+        F_INS = next(iter(w_ins - w_eq - {F_DEL})) if len(w_ins - w_eq - {F_DEL}) == 1 else "ins"
+        table = {"equal": (FLUSH_DI, [F_EQ]), "delete": (FLUSH_EQ, [F_DEL, F_INS]),
+                 "insert": (FLUSH_EQ, [F_DEL, F_INS]), "replace": (FLUSH_EQ, [F_DEL, F_INS])}
         for name, (flush, fields) in table.items():
             fn = prog.fn(rep["methods"].get(name, ""))
             if fn is None:
@@ -1124,7 +1145,7 @@ def rule_B5(prog):
                        "inner finish (found %d/%d/%d calls, order by dominance violated or a call missing)" % (
                            len(a), len(b), len(f)), file=fn.file, line=fn.line)
         # flush helpers: flush_eq emits only `equal`, flush_del_ins emits replace|delete|insert and clears buffers
-        for hn, allowed, fields in ((FLUSH_EQ, {"equal"}, ["eq"]), (FLUSH_DI, {"delete", "insert", "replace"}, ["del", "ins"])):
+        for hn, allowed, fields in ((FLUSH_EQ, {"equal"}, [F_EQ]), (FLUSH_DI, {"delete", "insert", "replace"}, [F_DEL, F_INS])):
             fns = [f_ for f_ in prog.find("Replace::" + hn)]
             for f_ in fns:
                 r.instances += 1
